@@ -2,13 +2,27 @@
 # usage: ./run.sh <ID> <quick|thorough>   |   ./run.sh replay <file>
 # Rebuilds the harness against /repo's current working tree (content-hashed
 # build cache), then runs the check. Never runs go with cwd inside /repo.
+#
+# Development aid (not used by the registered commands): VERIF_REPO=<dir> checks a scratch copy of
+# the repository instead of /repo (separate binary and evidence directory under $VERIF_OUT).
 set -u
 HERE="$(cd "$(dirname "$0")" && pwd)"
 export GOFLAGS=-mod=mod GOPROXY=off GOSUMDB=off GOTOOLCHAIN=local GOWORK=off
+BIN="$HERE/bin/verif"
 export VERIF_DIR="$HERE"
-mkdir -p "$HERE/bin" "$HERE/evidence"
-( cd "$HERE/mc" && go build -o "$HERE/bin/verif" ./cmd/verif ) || { echo "BUILD-FAILED: harness does not compile against /repo working tree" >&2; exit 2; }
-if [ "${1:-}" = "replay" ]; then
-  exec "$HERE/bin/verif" replay "$2"
+MODFLAG=""
+if [ -n "${VERIF_REPO:-}" ]; then
+  OUT="${VERIF_OUT:-$(mktemp -d /tmp/verif-alt.XXXXXX)}"
+  mkdir -p "$OUT/evidence" "$OUT/replays"
+  sed "s|=> /repo|=> $VERIF_REPO|" "$HERE/mc/go.mod" > "$OUT/go.alt.mod"
+  cp "$HERE/mc/go.sum" "$OUT/go.alt.sum"
+  MODFLAG="-modfile=$OUT/go.alt.mod"
+  BIN="$OUT/verif"
+  export VERIF_EVIDENCE_DIR="$OUT" VERIF_MODFILE="$OUT/go.alt.mod"
 fi
-exec "$HERE/bin/verif" check "$1" "${2:-${VERIF_TIER:-quick}}"
+mkdir -p "$HERE/bin" "$HERE/evidence"
+( cd "$HERE/mc" && go build $MODFLAG -o "$BIN" ./cmd/verif ) || { echo "BUILD-FAILED: harness does not compile against the repository working tree" >&2; exit 2; }
+if [ "${1:-}" = "replay" ]; then
+  exec "$BIN" replay "$2"
+fi
+exec "$BIN" check "$1" "${2:-${VERIF_TIER:-quick}}"
